@@ -127,8 +127,9 @@ class ThreadWorker(Worker):
         if self._set_names:
             setthreadtitle(self.name, self)
 
-        self._startup_sync.set()
         try:
+            # from here on the parent may call terminate(): whatever lands from now on is recorded as the outcome
+            self._startup_sync.set()
             assert self.is_child
             self._init_child()
             self._result = (True, self.do_work())
